@@ -301,6 +301,7 @@ PROPS = {
                       "once iff configured, to bind `error`, and to let non-Exceptions propagate.",
         "level_note": K3_NOTE,
         "units": [K("k3::S-OnError-keep"), K("k3::S-OnError-in-translate"), K("k3::S-OnError-static-body"),
+                  K("k3::S-OnError-two-streams"),
                   K("k3::S-OnError-dict-attributes"), FRESH],
         "not_decided": [],
         "assumptions": K3_ASSUME,
